@@ -1,6 +1,8 @@
 import GeoVerif.Corr.Proto
 import GeoVerif.Model.Geoid
-/-! Correspondence relation for C20: a whole query/caching history per line, raster generated from a seed -/
+import GeoVerif.Model.GeoidHeader
+/-! Correspondence relation for C20: a whole query/caching history per line, raster generated from a seed;
+    byte-level PGM headers; default path/name; the line contract of GeoidEval -/
 namespace GeoVerif.Corr.C20
 open GeoVerif GeoVerif.Proto GeoVerif.Geoid
 
@@ -28,50 +30,200 @@ def near (m v : F64) (scaleMag : F64) : Bool :=
   F64.same m v || (m.isFinite && v.isFinite &&
     Dy.le (Dy.abs (Dy.sub m.toDy v.toDy)) (let s := Dy.abs scaleMag.toDy; ⟨s.m, s.e - 50⟩))
 
+/-- the `int` values of a height query (`heightInts`, and `rawvalInts` for the stencil of the located cell when a cache
+    window is set) are in the range of `int` (theorem `accepted_int_arithmetic`; evaluated again on every query) -/
+def heightIntsOK (f : File) (cubic : Bool) (s : St (List F64)) (lat lon : F64) : Bool :=
+  let la := MathF.latFix lat
+  let lo := MathF.angNormalize lon
+  if la.isNaN || lo.isNaN then true else
+  intsOK (heightInts f.w f.h (fl (lo * rlonresF f)) (fl (F64.neg la * rlatresF f))) &&
+  (match locF f lat lon with
+   | some (ix, iy, _, _) =>
+     !s.cache || (if cubic then stencilCubic else stencilBilinear).all fun d =>
+       intsOK (rawvalInts f.w f.h s.xoff s.yoff s.xsize s.ysize (ix + d.1) (iy + d.2))
+   | none => true)
+
+/-- the `int` values of a `CacheArea` call that sets the window `(xo, yo, xs, ys)` -/
+def cacheIntsOK (f : File) (cubic : Bool) (so we no ea : F64) (xo yo xs ys : Int) : Bool :=
+  let q := cacheFloors f so we no ea
+  intsOK (cacheAreaInts f.w f.h cubic q.1 q.2.1 q.2.2.1 q.2.2.2) &&
+  (List.range ys.toNat).all (fun j => intsOK (fillInts f.w f.h xo yo xs (yo + (j : Int)))) &&
+  intsOK (getterInts f.w xo yo xs ys cubic)
+
+/-- cache flag and extent reported by the implementation after a cache operation: `c:W:E:N:S` -/
+def checkExtent (f : File) (cubic : Bool) (s : St (List F64)) (parts : List String) : Option String :=
+  match parts with
+  | [c, w, e, n, so] =>
+    (match pb c, parseF w, parseF e, parseF n, parseF so with
+     | some c, some w, some e, some n, some so =>
+       let big := F64.ofInt 360
+       if c != s.cache then some s!"Cache() = {c}, model {s.cache}"
+       else if !(near (cacheWest f cubic s) w big && near (cacheEast f cubic s) e big) then
+         some s!"CacheWest/East: impl {showF w} {showF e}, model {showF (cacheWest f cubic s)} {showF (cacheEast f cubic s)}"
+       else if !(near (cacheNorth f cubic s) n big && near (cacheSouth f cubic s) so big) then
+         some s!"CacheNorth/South: impl {showF n} {showF so}, model {showF (cacheNorth f cubic s)} {showF (cacheSouth f cubic s)}"
+       else none
+     | _, _, _, _, _ => some "parse extent")
+  | _ => some "parse extent"
+
 partial def walk (f : File) (cubic : Bool) (E : Env F64 (List F64)) (s : St (List F64)) (mag : F64) (bits : Nat × Nat) :
     List String → List String → Option String × (Nat × Nat)
   | [], _ => (none, bits)
   | op :: ops, r :: rs =>
     match op.splitOn ":" with
     | ["H", la, lo] =>
-      (match parseF la, parseF lo, parseF r with
-       | some lat, some lon, some v =>
-         let (s', out) := step E s (.height lat lon)
-         let m := out.getD .nan
-         -- the location must stay inside the raster (hypothesis `LocOK` of the theorems, checked on every query)
-         let locOK := match E.loc lat lon with
-           | none => true
-           | some (ix, iy, _, _) => 0 ≤ ix && ix < f.w && 0 ≤ iy && iy ≤ f.h - 2
-         if !locOK then (some s!"cell location outside the raster for lat={showF lat} lon={showF lon}", bits)
-         else if near m v mag then walk f cubic E s' mag (bits.1 + (if F64.same m v then 1 else 0), bits.2 + 1) ops rs
-         else (some s!"Geoid height at ({showF lat},{showF lon}): impl={showF v} model={showF m} spec={showF (heightSpec E lat lon)}", bits)
-       | _, _, _ => (some "parse H", bits))
+      (match parseF la, parseF lo with
+       | some lat, some lon =>
+         (match parseF r with
+          | some v =>
+            let (s', out) := apiStep f cubic s (.height lat lon)
+            let m := out.getD .nan
+            -- the location must stay inside the raster (theorem `concrete_loc_in_raster`; checked again on every query)
+            let locOK := match E.loc lat lon with
+              | none => true
+              | some (ix, iy, _, _) => 0 ≤ ix && ix < f.w && 0 ≤ iy && iy ≤ f.h - 2
+            if !locOK then (some s!"cell location outside the raster for lat={showF lat} lon={showF lon}", bits)
+            else if !heightIntsOK f cubic s lat lon then (some s!"an int expression of Geoid::height / rawval leaves the range of int at lat={showF lat} lon={showF lon}", bits)
+            else if near m v mag then walk f cubic E s' mag (bits.1 + (if F64.same m v then 1 else 0), bits.2 + 1) ops rs
+            else (some s!"Geoid height at ({showF lat},{showF lon}): impl={showF v} model={showF m} spec={showF (heightSpec E lat lon)}", bits)
+          | none => (some s!"height query at ({showF lat},{showF lon}) threw {r}", bits))
+       | _, _ => (some "parse H", bits))
+    | ["C", la, lo, hh] =>
+      (match parseF la, parseF lo, parseF hh with
+       | some lat, some lon, some h0 =>
+         (match (r.splitOn ":").map parseF with
+          | [some up, some dn] =>
+            let (s', out) := step E s (.height lat lon)
+            let N := out.getD .nan
+            let mag' := mag + F64.abs h0
+            if near (convertHeight h0 1 N) up mag' && near (convertHeight h0 (-1) N) dn mag' then walk f cubic E s' mag bits ops rs
+            else (some s!"ConvertHeight at ({showF lat},{showF lon}) h={showF h0}: impl {showF up} {showF dn}, model {showF (convertHeight h0 1 N)} {showF (convertHeight h0 (-1) N)}", bits)
+          | _ => (some s!"ConvertHeight threw / parse: {r}", bits))
+       | _, _, _ => (some "parse C", bits))
     | ["A", a, b, c, d] =>
-      (match parseF a, parseF b, parseF c, parseF d with
-       | some so, some we, some no, some ea =>
-         if s.threadsafe then (if r == "!E" then walk f cubic E s mag bits ops rs else (some "CacheArea on a thread-safe Geoid must throw", bits))
-         else if r == "!E" then
+      (match parseF a, parseF b, parseF c, parseF d, r.splitOn ":" with
+       | some so, some we, some no, some ea, status :: ext =>
+         let after (s' : St (List F64)) :=
+           match checkExtent f cubic s' ext with
+           | some e => (some e, bits)
+           | none => walk f cubic E s' mag bits ops rs
+         if s.threadsafe then (if status == "!E" then after s else (some "CacheArea on a thread-safe Geoid must throw", bits))
+         else if status == "!E" then
            (match cacheWindow f cubic so we no ea with
-            | .invalid => walk f cubic E s mag bits ops rs    -- the rejected call leaves the cache as it was
+            | .invalid => after s    -- the rejected call leaves the cache as it was
             | _ => (some "CacheArea threw on valid limits", bits))
          else
            (match cacheWindow f cubic so we no ea with
-            | .clear => walk f cubic E (step E s .cacheClear).1 mag bits ops rs
+            | .clear => after (apiStep f cubic s (.cacheArea so we no ea)).1
             | .invalid => (some "CacheArea must reject limits that are not finite / latitudes outside [-90, 90]", bits)
             | .set xo yo xs ys =>
-              -- window hypotheses of the theorems, checked on every call
-              if !(0 ≤ xo && xo < f.w && 0 < xs && xs ≤ f.w) then (some s!"CacheArea window out of range: xoff={xo} xsize={xs}", bits)
-              else walk f cubic E (step E s (.cacheSet xo yo xs ys)).1 mag bits ops rs)
-       | _, _, _, _ => (some "parse A", bits))
+              -- window facts (theorem `cacheWindow_ok`), checked again on every call
+              if !(0 ≤ xo && xo < f.w && 0 < xs && xs ≤ f.w && -1 ≤ yo && yo + ys ≤ f.h + 1 && 0 < ys) then (some s!"CacheArea window out of range: xoff={xo} xsize={xs} yoff={yo} ysize={ys}", bits)
+              else if !cacheIntsOK f cubic so we no ea xo yo xs ys then (some "an int expression of Geoid::CacheArea leaves the range of int", bits)
+              else after (apiStep f cubic s (.cacheArea so we no ea)).1)
+       | _, _, _, _, _ => (some "parse A", bits))
     | ["L"] =>
-      if s.threadsafe then (if r == "!E" then walk f cubic E s mag bits ops rs else (some "CacheAll on a thread-safe Geoid must throw", bits))
-      else
-        (match cacheWindow f cubic (F64.ofInt (-90)) 0 (F64.ofInt 90) (F64.ofInt 360) with
-         | .set xo yo xs ys => walk f cubic E (step E s (.cacheSet xo yo xs ys)).1 mag bits ops rs
-         | _ => (some "CacheAll window", bits))
-    | ["X"] => walk f cubic E (step E s .cacheClear).1 mag bits ops rs
+      (match r.splitOn ":" with
+       | status :: ext =>
+         let after (s' : St (List F64)) :=
+           match checkExtent f cubic s' ext with
+           | some e => (some e, bits)
+           | none => walk f cubic E s' mag bits ops rs
+         if s.threadsafe then (if status == "!E" then after s else (some "CacheAll on a thread-safe Geoid must throw", bits))
+         else if status != "-" then (some s!"CacheAll threw {status}", bits)
+         else after (apiStep f cubic s .cacheAll).1
+       | _ => (some "parse L", bits))
+    | ["X"] =>
+      (match r.splitOn ":" with
+       | _ :: ext =>
+         let s' := (apiStep f cubic s .cacheClear).1
+         (match checkExtent f cubic s' ext with
+          | some e => (some e, bits)
+          | none => walk f cubic E s' mag bits ops rs)
+       | _ => (some "parse X", bits))
     | _ => (some s!"malformed op {op}", bits)
   | _, [] => (some "missing results", bits)
+
+/-! ### byte-level headers -/
+open GeoidHeader in
+def dataByte (kind : Nat) (i : Nat) : Nat :=
+  match kind with
+  | 0 => 0
+  | 1 => 53
+  | 2 => (i * 37 + 11) % 256
+  | 3 => 32
+  | _ => [55, 32, 10].getD (i % 3) 0
+
+def smallLimit : Nat := 65536
+
+/-- the bytes handed to the model: the whole file when it is small, otherwise the header and the first 16 (zero) data bytes -/
+def fileBytes (hdr : List Nat) (datalen kind : Nat) : List Nat :=
+  hdr ++ (List.range (if datalen ≤ smallLimit then datalen else 16)).map (dataByte kind)
+
+def sameBytes (a : List Nat) (b : List UInt8) : Bool := a == b.map (·.toNat)
+
+def headerVerdict (cubic : Bool) (hdr : List Nat) (datalen kind : Nat) (res : List String) : Verdict :=
+  let file := fileBytes hdr datalen kind
+  let len := hdr.length + datalen
+  let big := datalen > smallLimit
+  -- a large (sparse) file is described by its header only: every line the scanner reads must end inside the header
+  if big && !(hdr.getLast? == some 10 && kind == 0) then .skip "large file whose header is not newline-terminated" else
+  let m := GeoidHeader.parse cubic file len
+  if big && (match GeoidHeader.scan cubic file with
+             | .ok raw => (match raw.tell with | some p => p > hdr.length | none => true)
+             | .error _ => false) then .skip "scanner ran into the data of a large file" else
+  match res, m with
+  | ["skip"], _ => .skip "sparse files unavailable"
+  | ["!E", msg], .error e =>
+    (match parseS msg with
+     | some b => if bytesToString b == e.msg then .ok else .skip s!"rejected by both; message '{bytesToString b}' vs model '{e.msg}'"
+     | none => .bad "parse message")
+  | ["!E", msg], .ok H =>
+    .bad s!"Geoid header: the implementation rejects ({(parseS msg).map bytesToString}) a file the format model accepts ({H.w} x {H.h}, data at {H.datastart}, length {len})"
+  | "ok" :: _, .error e => .bad s!"Geoid header: the implementation accepts a file the format model rejects: {e.msg} (length {len})"
+  | ["ok", off, sc, me, re, w, h, ds, rlon, rlat, desc, dt], .ok H =>
+    (match parseF off, parseF sc, parseF me, parseF re, parseI w, parseI h, ds.toNat?, parseF rlon, parseF rlat, parseS desc, parseS dt with
+     | some off, some sc, some me, some re, some w, some h, some ds, some rlon, some rlat, some desc, some dt =>
+       if !(F64.same off H.offset && F64.same sc H.scale) then .bad s!"Geoid header: offset/scale impl {showF off} {showF sc}, model {showF H.offset} {showF H.scale}"
+       else if !(F64.same me H.maxerror && F64.same re H.rmserror) then .bad s!"Geoid header: MaxError/RMSError impl {showF me} {showF re}, model {showF H.maxerror} {showF H.rmserror}"
+       else if !(w == H.w && h == H.h && ds == H.datastart) then .bad s!"Geoid header: width/height/datastart impl {w} {h} {ds}, model {H.w} {H.h} {H.datastart}"
+       else if !(F64.same rlon (GeoidHeader.rlonres H.w) && F64.same rlat (GeoidHeader.rlatres H.h)) then .bad s!"Geoid header: resolutions impl {showF rlon} {showF rlat}"
+       else if !(sameBytes H.description desc && sameBytes H.datetime dt) then .bad s!"Geoid header: description/date impl {showS desc} / {showS dt}, model {H.description} / {H.datetime}"
+       else .ok
+     | _, _, _, _, _, _, _, _, _, _, _ => .bad "parse")
+  | _, _ => .bad "parse result"
+
+/-! ### default path and name -/
+def defaultData : String := "/usr/local/share/GeographicLib"
+def defaultName : String := "egm96-5"
+
+def envVal (s : String) : Option (Option String) :=
+  if s == "-" then some none else (parseS s).map fun b => some (bytesToString b)
+
+def defaultPath (p d : Option String) : String :=
+  match p with
+  | some x => if x != "" then x else (match d with | some y => if y != "" then y else defaultData | none => defaultData) ++ "/geoids"
+  | none => (match d with | some y => if y != "" then y else defaultData | none => defaultData) ++ "/geoids"
+
+/-! ### GeoidEval: one output line per input line, heights printed with four decimals -/
+def isFixed4 (t : List Nat) : Bool :=
+  let t := match t with | 45 :: r => r | _ => t
+  let ip := t.takeWhile GeoidHeader.isdigit
+  match t.dropWhile GeoidHeader.isdigit with
+  | 46 :: fr => !ip.isEmpty && fr.length == 4 && fr.all GeoidHeader.isdigit
+  | _ => false
+
+def lastToken (l : List Nat) : List Nat :=
+  ((l.reverse.dropWhile (fun c => c == 32 || c == 9)).takeWhile (fun c => !(c == 32 || c == 9))).reverse
+
+def splitLines (b : List Nat) : List (List Nat) :=
+  let rec go (cur : List Nat) : List Nat → List (List Nat)
+    | [] => if cur.isEmpty then [] else [cur.reverse]
+    | 10 :: r => cur.reverse :: go [] r
+    | c :: r => go (c :: cur) r
+  go [] b
+
+def isErrorLine (l : List Nat) : Bool := l.take 6 == GeoidHeader.str "ERROR:"
 
 def handle (op : String) (args res : List String) : Option Verdict :=
   match op with
@@ -82,12 +234,7 @@ def handle (op : String) (args res : List String) : Option Verdict :=
        | some w, some h, some offset, some scale, some cubic, some threadsafe, some kind, some seed =>
          let f := mkFile w h offset scale kind seed.toUInt64
          let E := concrete f cubic
-         let s0 := initSt f
-         let s0 := if threadsafe then
-             (match cacheWindow f cubic (F64.ofInt (-90)) 0 (F64.ofInt 90) (F64.ofInt 360) with
-              | .set xo yo xs ys => { (step E s0 (.cacheSet xo yo xs ys)).1 with threadsafe := true }
-              | _ => s0)
-           else s0
+         let s0 := if threadsafe then threadsafeSt f cubic else initSt f
          let mag := F64.abs offset + scale * F64.ofInt 65535
          (match walk f cubic E s0 mag (0, 0) ops res with
           | (none, _) => .ok
@@ -104,6 +251,77 @@ def handle (op : String) (args res : List String) : Option Verdict :=
          if ok == accepted then .ok else .bad s!"Geoid header validation: impl accepted={accepted}, format says {ok}"
        | _, _, _, _, _, _, _, _ => .bad "parse")
     | _, _ => .bad "parse"
+  | "geoidpgm" => some <|
+    -- cubic expect s:<header> datalen kind | ok … / !E s:<message>
+    match args with
+    | [cu, _expect, hdr, dl, kind] =>
+      (match pb cu, parseS hdr, dl.toNat?, kind.toNat? with
+       | some cubic, some hb, some datalen, some kind => headerVerdict cubic (hb.map (·.toNat)) datalen kind res
+       | _, _, _, _ => .bad "parse")
+    | _ => .bad "parse"
+  | "geoidbig" => some <|
+    -- cubic s:<header> w h seed | accepted nchecked : a well-formed raster of more than 2^32 bytes must be accepted (Nat arithmetic)
+    match args, res with
+    | [_, _, _, _, _], ["skip"] => .skip "sparse files unavailable"
+    | [cu, hdr, w, h, _], [acc, _] =>
+      (match pb cu, parseS hdr, w.toNat?, h.toNat?, pb acc with
+       | some cubic, some hb, some w, some h, some accepted =>
+         let hb := hb.map (·.toNat)
+         let m := GeoidHeader.parse cubic (hb ++ List.replicate 16 0) (hb.length + 2 * w * h)
+         (match m with
+          | .ok H => if accepted && H.w == w && H.h == h then .ok else .bad s!"large raster {w} x {h}: the format model accepts, the implementation does not"
+          | .error e => if accepted then .bad s!"large raster {w} x {h}: accepted although the format model says {e.msg}" else .ok)
+       | _, _, _, _, _ => .bad "parse")
+    | _, _ => .bad "parse"
+  | "geoidenv" => some <|
+    match args, res with
+    | [p, d, n], [rp, rn] =>
+      (match envVal p, envVal d, envVal n, parseS rp, parseS rn with
+       | some p, some d, some n, some rp, some rn =>
+         let wantP := defaultPath p d
+         let wantN := match n with | some x => if x != "" then x else defaultName | none => defaultName
+         if bytesToString rp == wantP && bytesToString rn == wantN then .ok
+         else .bad s!"DefaultGeoidPath/Name: impl '{bytesToString rp}' '{bytesToString rn}', documented '{wantP}' '{wantN}'"
+       | _, _, _, _, _ => .bad "parse")
+    | _, _ => .bad "parse"
+  | "geoidlookup" => some <|
+    match args, res with
+    | [mode, cu], "ok" :: tail :: interp :: _ =>
+      (match mode.toNat?, pb cu, parseS tail, parseS interp with
+       | some mode, some cubic, some t, some i =>
+         let t := bytesToString t
+         if mode ≥ 2 then .bad "a Geoid was constructed from a missing file"
+         else if t.startsWith "/" && t.endsWith ".pgm" && bytesToString i == (if cubic then "cubic" else "bilinear") then .ok
+         else .bad s!"lookup through the default path: file '{t}' interpolation '{bytesToString i}'"
+       | _, _, _, _ => .bad "parse")
+    | [mode, _], ["!E", msg] =>
+      (match mode.toNat?, parseS msg with
+       | some mode, some m =>
+         if mode ≥ 2 && bytesToString m == GeoidHeader.Err.notReadable.msg then .ok
+         else .bad s!"Geoid lookup mode {mode}: GeographicErr '{bytesToString m}'"
+       | _, _ => .bad "parse")
+    | _, _ => .bad "parse"
+  | "geoideval" => some <|
+    match args, res with
+    | [_, _, _, _, _, mode, _], [rc, nin, nout, nerr, out] =>
+      (match mode.toNat?, rc.toInt?, nin.toNat?, nout.toNat?, nerr.toNat?, parseS out with
+       | some mode, some rc, some nin, some nout, some nerr, some ob =>
+         let ls := splitLines (ob.map (·.toNat))
+         if rc < -90 then .bad "GeoidEval: exception escaped main"
+         else if nin != nout then .bad s!"GeoidEval: {nin} input lines, {nout} output lines"
+         else if (nerr > 0) != (rc != 0) then .bad s!"GeoidEval: {nerr} ERROR lines, exit status {rc}"
+         else
+           -- every output line is an ERROR: line or ends (before a comment) with a height printed with four decimals
+           let okLine (l : List Nat) : Bool :=
+             isErrorLine l ||
+             (let body := if mode == 5 then l.takeWhile (· != 35) else l
+              let t := lastToken body
+              isFixed4 t || t == GeoidHeader.str "nan")
+           if ob.length < 4000 && !(ls.all okLine) then .bad "GeoidEval: an output line is neither an ERROR: line nor a height with four decimals"
+           else .ok
+       | _, _, _, _, _, _ => .bad "parse")
+    | _, _ => .bad "parse"
+  | "geoidhuge" => some (.skip "dimensions above 2^30: judged by the harness (child process under the sanitizers)")
   | "geoidcubic" => some (.skip "reproduction of cubic rasters is judged by the harness on the implementation (theorem cubic_reproduces for the table)")
   | "geoidbil" => some (.skip "bilinear node/edge/continuity laws are judged by the harness on the implementation")
   | _ => none
